@@ -15,6 +15,9 @@ import (
 
 const defaultMaxRandValue = 10
 
+// maxRandStringLength bounds randString: 1 MiB of characters is far beyond any request part.
+const maxRandStringLength = 1 << 20
+
 func init() {
 	rand.New(rand.NewSource(time.Now().UnixNano()))
 }
@@ -129,6 +132,10 @@ func randString(cnt any, letters string) (string, error) {
 	}
 	if n < 0 {
 		return "", fmt.Errorf("length of a random string must not be negative, got %d", n)
+	}
+	if n > maxRandStringLength {
+		// the length may come from a response or a data source: an absurd one must not take the process down
+		return "", fmt.Errorf("length of a random string must not exceed %d, got %d", maxRandStringLength, n)
 	}
 	if n == 0 {
 		n = 1
